@@ -9,6 +9,7 @@ U == INSTANCE MC_ForkDetector WITH s <- sA
 MCUniversesQuick == U!MCUniversesQuick
 MCUniverses      == U!MCUniverses
 MCUniversesSim   == U!MCUniversesSim
+MCUniversesDefect == U!MCUniversesDefect
 
 GenNext  == Len(hist) < Depth /\ Next
 GenSpec  == Init /\ [][GenNext]_vars
@@ -26,14 +27,15 @@ SimSpec == Init /\ [][SimNext]_vars
 EmitTwinFull == (Len(hist') = Depth /\ groups' > 0) => PrintT("@@B " \o ToJson(hist'))
 
 \* exhaustive checking within a depth bound (history kept only as a length counter)
-BoundedInit == /\ groups = 0
+BoundedInit == /\ groups = 0 /\ asym = FALSE
                /\ \E k \in Kinds, V \in Universes, r \in {x \in RoundVals : x <= 2} :
                      sA = NewState(k, V, r) /\ sB = NewState(k, V, r) /\ hist = <<0>>
 BoundedNext ==
     /\ Len(hist) < Depth /\ hist' = Append(hist, 0)
-    /\ \/ \E act \in One!Acts(sA) : (sA' = Step(sA, act).s /\ sB' = Step(sB, act).s /\ UNCHANGED groups)
+    /\ \/ \E act \in One!Acts(sA) : (sA' = Step(sA, act).s /\ sB' = Step(sB, act).s /\ UNCHANGED <<groups, asym>>)
        \/ \E act \in GroupActs(sA) :
              /\ groups < MaxGroups
              /\ groups' = groups + 1 /\ sA' = RecvAll(sA, act.oa) /\ sB' = RecvAll(sB, act.ob)
+             /\ asym' = (asym \/ RecvErrs(sA, act.oa) # RecvErrs(sB, act.ob))
 BoundedSpec == BoundedInit /\ [][BoundedNext]_vars
 ====
